@@ -45,9 +45,27 @@ func genC15(g *gen) {
 		if len(all) == 0 {
 			break
 		}
-		if len(inGo) > 0 && g.chance(0.6) {
+		switch y := g.r.Float64(); {
+		case len(inGo) > 0 && y < 0.35:
 			c.StallOnly = inGo[g.r.IntN(len(inGo))]
-		} else {
+		case len(inGo) > 0 && y < 0.7:
+			// all preferred sites of one function
+			var fns []string
+			seen := map[string]bool{}
+			for _, st := range inGo {
+				i, j := strings.Index(st, ":"), strings.Index(st, "(")
+				k := strings.Index(st, ")")
+				if i < 0 || j < 0 || k < j {
+					continue
+				}
+				fn := st[:i] + st[j:k+1]
+				if !seen[fn] {
+					seen[fn] = true
+					fns = append(fns, fn)
+				}
+			}
+			c.StallOnly = "fn:" + fns[g.r.IntN(len(fns))]
+		default:
 			c.StallOnly = all[g.r.IntN(len(all))]
 		}
 		c.StallHitPct = pick(g.r, 50, 100)
@@ -186,7 +204,8 @@ var stallSiteList struct {
 }
 
 // stallSites returns the stall sites the instrumenter has put into the library (T6): all of them,
-// and those inside the body of a `go func` literal. The list belongs to the build (SIM_STALL_SITES).
+// and the preferred ones: those inside the body of a `go func` literal ("@go") and those that use a
+// receiver field after an explicit unlock in the same function ("@unl"). The list belongs to the build (SIM_STALL_SITES).
 func stallSites() (all, inGo []string) {
 	stallSiteList.once.Do(func() {
 		b, err := os.ReadFile(os.Getenv("SIM_STALL_SITES"))
@@ -198,7 +217,7 @@ func stallSites() (all, inGo []string) {
 				continue
 			}
 			stallSiteList.all = append(stallSiteList.all, l)
-			if strings.HasSuffix(l, "@go") {
+			if strings.HasSuffix(l, "@go") || strings.HasSuffix(l, "@unl") {
 				stallSiteList.inGo = append(stallSiteList.inGo, l)
 			}
 		}
